@@ -585,6 +585,9 @@ func shortSequences(r *vk.Run) {
 	r.Count("short-sequences", idx)
 }
 
+// idField names, per message type, the string field the id callback writes a generated id into.
+var idField = map[string]string{"TestAllTypes": "default_string", "ElectricMode": "id", "Brightness": "", "OnOff": ""}
+
 func randomSequences(r *vk.Run) {
 	type tcase struct {
 		name  string
@@ -702,6 +705,10 @@ func randomSequences(r *vk.Run) {
 						o.CreateIfAbsent = rng.Chance(1, 2)
 						if op.ID == "" && rng.Chance(3, 4) {
 							o.GenID, o.IDCallback = true, true
+							if rng.Bool() {
+								// the callback also fills the id into the message being written, as a model would
+								o.IDIntoField = idField[tc.name]
+							}
 						}
 						o.CreatedCB = rng.Bool()
 					}
